@@ -156,3 +156,99 @@ pub fn statd(req: &Req) -> R<String> {
 		_ => Err(Bad),
 	}
 }
+
+
+/// `zstat w=<32|64> a=<mean, f64 bits> b=<sd, f64 bits> samples=<N> seed=<s> [gen=..]`: under a real generator, every `Normal(a, b)` sample is
+/// compared with `mean + sd*z` (fused and unfused, in the sample's own type, computed HERE by the platform) for the standard-normal
+/// sample `z` that a clone of the generator draws from the same position of the stream.  Answers
+/// `<mismatches>:<index of the first>:<z bits>:<sample bits>:<fused bits>:<unfused bits>` (a search over streams for the rare inputs on which an
+/// implementation that, say, goes through a wider type rounds differently).
+fn runz<G: Rng + Clone>(mut r: Random<G>, w: u64, a: f64, b: f64, samples: u64) -> R<String> {
+	use urandom::distr::*;
+	let (mut bad, mut first) = (0u64, String::new());
+	if w == 32 {
+		let (m, sd) = (a as f32, b as f32);
+		let d = Normal::<f32>::new(m, sd);
+		for i in 0..samples {
+			let mut twin = r.clone();
+			let z: f32 = twin.sample(&StandardNormal);
+			let s: f32 = r.sample(&d);
+			let (c1, c2) = (sd.mul_add(z, m), sd * z + m);
+			if !(s.to_bits() == c1.to_bits() || s.to_bits() == c2.to_bits() || (s.is_nan() && (c1.is_nan() || c2.is_nan()))) {
+				if bad == 0 {
+					first = format!("{}:{}:{}:{}:{}", i, z.to_bits(), s.to_bits(), c1.to_bits(), c2.to_bits());
+				}
+				bad += 1;
+			}
+		}
+	}
+	else {
+		let d = Normal::<f64>::new(a, b);
+		for i in 0..samples {
+			let mut twin = r.clone();
+			let z: f64 = twin.sample(&StandardNormal);
+			let s: f64 = r.sample(&d);
+			let (c1, c2) = (b.mul_add(z, a), b * z + a);
+			if !(s.to_bits() == c1.to_bits() || s.to_bits() == c2.to_bits() || (s.is_nan() && (c1.is_nan() || c2.is_nan()))) {
+				if bad == 0 {
+					first = format!("{}:{}:{}:{}:{}", i, z.to_bits(), s.to_bits(), c1.to_bits(), c2.to_bits());
+				}
+				bad += 1;
+			}
+		}
+	}
+	Ok(format!("{}:{}", bad, if bad == 0 { "-".to_string() } else { first }))
+}
+
+pub fn zstat(req: &Req) -> R<String> {
+	let w = req.u64("w")?;
+	let samples = req.u64("samples")?;
+	let seed = req.u64("seed")?;
+	let a = f64::from_bits(req.u64("a")?);
+	let b = f64::from_bits(req.u64("b")?);
+	if samples > 4_000_000_000 || (w != 32 && w != 64) {
+		return Err(Bad);
+	}
+	match req.opt("gen").unwrap_or("xoshiro") {
+		"xoshiro" => runz(Xoshiro256::from_seed(seed), w, a, b, samples),
+		"splitmix" => runz(SplitMix64::from_seed(seed), w, a, b, samples),
+		"wyrand" => runz(Wyrand::from_seed(seed), w, a, b, samples),
+		_ => Err(Bad),
+	}
+}
+
+
+/// `zfind a=<mean f64 bits> b=<sd f64 bits> iters=<N> seed=<s> max=<K>`: f32 z-scores in (-4, 4) on which a PLAUSIBLE ALTERNATIVE evaluation of
+/// `mean + sd*z` (through f64: fused or unfused, rounded to f32 afterwards) differs from both evaluations in f32 itself (fused, unfused) -
+/// the inputs on which a sampler that goes through the wider type can be told from one that does not (fused through f64 != fused in f32, or unfused through f64 != unfused in f32). Answers the z bit patterns found.
+pub fn zfind(req: &Req) -> R<String> {
+	let m = f64::from_bits(req.u64("a")?) as f32;
+	let sd = f64::from_bits(req.u64("b")?) as f32;
+	let iters = req.u64("iters")?;
+	let max = req.usize("max")?;
+	let mut x = req.u64("seed")? | 1;
+	let mut out: Vec<String> = Vec::new();
+	for _ in 0..iters {
+		// xorshift64*: an unrelated generator of our own
+		x ^= x >> 12;
+		x ^= x << 25;
+		x ^= x >> 27;
+		let w = x.wrapping_mul(0x2545F4914F6CDD1D);
+		// a float in [1, 8) from 23 mantissa bits and 3 exponent choices, halved to (-4, 4) with a random sign
+		let e = 127 + (w >> 60) as u32 % 3;
+		let z = f32::from_bits(((w >> 63) as u32) << 31 | e << 23 | ((w >> 20) as u32 & 0x7FFFFF)) * 0.5;
+		let (c1, c2) = (sd.mul_add(z, m), sd * z + m);
+		let a1 = (sd as f64).mul_add(z as f64, m as f64) as f32;
+		let a2 = ((sd as f64) * (z as f64) + (m as f64)) as f32;
+		// (fused vs unfused in f32 differ on a fair share of all z and are not interesting by themselves; the evaluations through f64 differ
+		// from their f32 counterparts on about one z in 2^30)
+		let _ = (a2, c2);
+		if a1.to_bits() != c1.to_bits() {
+			out.push(z.to_bits().to_string());
+			if out.len() >= max {
+				break;
+			}
+		}
+	}
+	Ok(format!("z:{}", out.join(",")))
+}
